@@ -222,7 +222,7 @@ def _wf_clauses(h: Heap, T, tag: str | None = None) -> dict:
     c["S2"] = ForAll([n], Implies(mem(n), And(inP(h._parent(n)), h.alloc(n), 0 <= h.pos(n), h.pos(n) < h.clen(h._parent(n)), h.child(h._parent(n), h.pos(n)) == n,
                                                cls_of(n) == If(cls_of(T) == CLS["TypedTree"], CLS["TypedNode"], CLS["Node"]))), patterns=[h._parent(n), h._tree(n)])
     c["S3"] = ForAll([p, i], Implies(And(inP(p), 0 <= i, i < h.clen(p)), And(mem(h.child(p, i)), h._parent(h.child(p, i)) == p, h.pos(h.child(p, i)) == i)), patterns=[h.litem(ch(p), i)])
-    c["S4"] = ForAll([n], Implies(mem(n), h.rank(n) == h.rank(h._parent(n)) + 1), patterns=[h.rank(n)])
+    c["S4"] = ForAll([n], Implies(mem(n), And(h.rank(n) == h.rank(h._parent(n)) + 1, h.rank(n) >= 1)), patterns=[h.rank(n)])
     c["S5"] = And(
         ForAll([p, q], Implies(And(inP(p), inP(q), p != q, ch(p) != LNONE), ch(p) != ch(q)), patterns=[z3.MultiPattern(ch(p), ch(q))]),
         ForAll([p], Implies(And(inP(p), ch(p) != LNONE), h.lalloc(ch(p))), patterns=[ch(p)]),
@@ -260,5 +260,24 @@ WF_INDEX = ("I1", "I2")
 WF_PROP = {"S1": "C01", "S2": "C01", "S3": "C01", "S4": "C01", "S5": "C01", "S6": "C01", "S6r": "C01", "K": "C01", "I1": "C01", "I2": "C02", "U": "C03"}
 
 
+SPEC_AXIOMS: list = []
+_UPK: dict = {}
+
+
+def upk(h: Heap):
+    """k-th ancestor in heap h:  upk(n,0) = n,  upk(n,k+1) = parent(upk(n,k)).
+    One function per _parent symbol; the unfolding axiom is triggered by parent(upk(n,k)),
+    i.e. only when the code (or a spec) actually steps to the parent -- no matching loop."""
+    key = h.syms["_parent"].name()
+    if key not in _UPK:
+        f = Function(f"upk<{key}>", Ref, I, Ref)
+        n, k = Const(f"n!upk{len(_UPK)}", Ref), Const(f"k!upk{len(_UPK)}", I)
+        SPEC_AXIOMS.append(ForAll([n], f(n, 0) == n, patterns=[f(n, 0)]))
+        SPEC_AXIOMS.append(ForAll([n, k], Implies(k >= 0, f(n, k + 1) == h._parent(f(n, k))), patterns=[h._parent(f(n, k))]))
+        SPEC_AXIOMS.append(ForAll([n], f(n, 1) == h._parent(n), patterns=[f(n, 1)]))
+        _UPK[key] = f
+    return _UPK[key]
+
+
 def prelude():
-    return val_axioms() + seq_axioms()
+    return val_axioms() + seq_axioms() + SPEC_AXIOMS
